@@ -64,11 +64,62 @@ module C19 = struct
     go None lines
 end
 
+
+(* ---------------- generic line-based models ---------------- *)
+open BinNums
+let rec pos_of_int n = if n = 1 then Coq_xH else if n land 1 = 0 then Coq_xO (pos_of_int (n lsr 1)) else Coq_xI (pos_of_int (n lsr 1))
+let z_of_int n = if n = 0 then Z0 else if n > 0 then Zpos (pos_of_int n) else Zneg (pos_of_int (- n))
+let rec int_of_pos = function Coq_xH -> 1 | Coq_xO p -> 2 * int_of_pos p | Coq_xI p -> 2 * int_of_pos p + 1
+let int_of_z = function Z0 -> 0 | Zpos p -> int_of_pos p | Zneg p -> - (int_of_pos p)
+
+let index_of (tbl : string array) (s : string) =
+  let r = ref (-1) in
+  Array.iteri (fun i x -> if x = s then r := i) tbl;
+  if !r < 0 then failwith ("unknown mnemonic " ^ s) else !r
+
+(* run_case : header numbers -> (opcode, numbers) list -> observation lines per op *)
+let run_generic (ops_tbl : string array) (tag_tbl : string array)
+    (run_case : coq_Z list -> (nat * coq_Z list) list -> (nat * coq_Z list) list list) lines oc =
+  let flush id header ops =
+    let outs = run_case header (L.rev ops) in
+    Printf.fprintf oc "case %s\n" id;
+    L.iter (fun ls ->
+        L.iter (fun (tag, nums) ->
+            let t = int_of_nat tag in
+            let name = if t < Array.length tag_tbl then tag_tbl.(t) else Printf.sprintf "tag%d" t in
+            output_string oc (Stdlib.String.concat " " (name :: L.map (fun z -> string_of_int (int_of_z z)) nums));
+            output_char oc '\n') ls;
+        output_string oc ";\n") outs;
+    output_string oc "end\n" in
+  let rec go cur = function
+    | [] -> ()
+    | l :: rest ->
+      let l = Stdlib.String.trim l in
+      if l = "" || l.[0] = '#' then go cur rest
+      else match words l, cur with
+        | ("case" :: id :: hdr), _ -> go (Some (id, L.map (fun x -> z_of_int (int_of_string x)) hdr, [])) rest
+        | ["end"], Some (id, hdr, ops) -> flush id hdr ops; go None rest
+        | (m :: nums), Some (id, hdr, ops) ->
+          let o = (nat_of_int (index_of ops_tbl m), L.map (fun x -> z_of_int (int_of_string x)) nums) in
+          go (Some (id, hdr, o :: ops)) rest
+        | _ -> failwith ("unexpected line: " ^ l) in
+  go None lines
+
+let csr_ops = [| "add_node"; "try_add_edge"; "add_edge"; "clear_edges"; "contains_edge"; "out_degree";
+                 "neighbors_slice"; "edges_slice"; "from_sorted_edges" |]
+let csr_tags = [| "bool"; "err"; "panic"; "idx"; "unit"; "counts"; "row"; "wrow"; "erefs"; "nw"; "OUT-OF-FUEL"; "nat"; "notsorted" |]
+let list_ops = [| "add_node"; "add_edge"; "update_edge"; "clear"; "contains_edge"; "find_edge"; "edge_endpoints";
+                  "edge_weight"; "set_edge_weight"; "edge_indices_from"; "neighbors"; "add_node_from_edges" |]
+let list_tags = [| "bool"; "err"; "panic"; "eidx"; "unit"; "counts"; "row"; "wrow"; "erefs"; "nw"; "OUT-OF-FUEL"; "nat";
+                   "notsorted"; "none"; "pair"; "eidxs" |]
+
 let () =
   let prop = Sys.argv.(1) and infile = Sys.argv.(2) and outfile = Sys.argv.(3) in
   let lines = read_lines infile in
   let oc = open_out outfile in
   (match prop with
    | "C19" -> C19.run_file lines oc
+   | "C05csr" -> run_generic csr_ops csr_tags CsrM.run_case lines oc
+   | "C05list" -> run_generic list_ops list_tags AdjListM.run_case lines oc
    | _ -> prerr_endline ("unknown property " ^ prop); exit 2);
   close_out oc
